@@ -337,6 +337,16 @@ def chain_task(task: tuple, part: Part) -> dict:
     return part.out()
 
 
+def replay_case(raw: dict, part: Part) -> None:
+    backends.setup_determinism()
+    backends.sqlite_template()
+    run = Run(raw["pattern"], raw["max_retry"], raw["programs"], tuple(raw["crash"]) if raw.get("crash") else None)
+    ex = run.execute(Chooser(list(raw["schedule"])))
+    print("events:", ex["events"], "callback calls:", ex["calls"])
+    for clause, detail in run.check(ex):
+        part.violation(clause, raw)
+
+
 def run(tier: str, replay: str | None = None) -> int:
     backends.setup_determinism()
     ctx = Ctx(PID, tier, "model_checking")
